@@ -26,9 +26,9 @@ type Endpoint struct {
 	OnlyLookback bool
 	// Must: a datum at ts of the right signal has to be in the result.  Allowed: it may be (allowed widening).
 	// Everything not allowed must not be returned, nor admitted by a scan of a data table.
-	Must    func(w Win, ts int64) bool
-	Allowed func(w Win, ts int64) bool
-	Run     func(x *Exec, cluster bool, w Win) Resp
+	Must     func(w Win, ts int64) bool
+	Allowed  func(w Win, ts int64) bool
+	Run      func(x *Exec, cluster bool, w Win) Resp
 	Thorough bool // only in the thorough tier
 	// Limit > 0: the request carries limit=N; at least min(N, owed) owed items have to come back.
 	Limit int
@@ -124,7 +124,7 @@ func endpoints() []*Endpoint {
 	lokiMetric("loki_query_range_count_20s_shortcut", "loki_query_range_metric_15s_shortcut", `count_over_time(`+sel+`[20s])`, 20e9, true, false)
 	lokiMetric("loki_query_range_sum_by_60s_shortcut", "loki_query_range_metric_15s_shortcut", `sum by (cls) (rate(`+sel+`[1m]))`, 60e9, true, true)
 	add(&Endpoint{Name: "loki_instant_rate_5s", Group: "loki_instant_metric", Items: "samples", Signal: typeLog, Unit: 1, OnlyLookback: true,
-		Must: func(Win, int64) bool { return false }, // an instant vector keeps one point per series: nothing is owed per sample
+		Must:    func(Win, int64) bool { return false }, // an instant vector keeps one point per series: nothing is owed per sample
 		Allowed: metricAllowed(5e9, false),
 		Run:     get("/loki/api/v1/query?query=" + q(`rate(`+sel+`[5s])`) + "&time={Ens}&step=5")})
 
@@ -240,7 +240,9 @@ func endpoints() []*Endpoint {
 			return se(w, map[string]any{"matchers": []string{sel, `{cls=~"zp.+"}`}, "label_names": []string{"cls"}})
 		}, open, indexOnlyAllowed, true)
 	pf("prof_select_merge_stacktraces", "prof_select_merge_stacktraces", "/querier.v1.QuerierService/SelectMergeStacktraces",
-		func(w Win) map[string]any { return se(w, map[string]any{"profile_typeID": typeID, "label_selector": sel}) }, open, closed, false)
+		func(w Win) map[string]any {
+			return se(w, map[string]any{"profile_typeID": typeID, "label_selector": sel})
+		}, open, closed, false)
 	pf("prof_select_series", "prof_select_series", "/querier.v1.QuerierService/SelectSeries",
 		func(w Win) map[string]any {
 			return se(w, map[string]any{"profile_typeID": typeID, "label_selector": sel, "group_by": []string{"cls"}, "step": 1})
@@ -303,8 +305,8 @@ func align15(w Win) Win {
 
 // Regimes: hints.Range >= hints.Step throughout (the `step > range` pre-filter of processHints is C17's D29).
 var promRegimes = []promRegime{
-	{Name: "step0", StepMs: 0, RangeMs: 5000},              // no hints processing at all
-	{Name: "step1s", StepMs: 1000, RangeMs: 5000},          // raw samples + processHints
+	{Name: "step0", StepMs: 0, RangeMs: 5000},                               // no hints processing at all
+	{Name: "step1s", StepMs: 1000, RangeMs: 5000},                           // raw samples + processHints
 	{Name: "step15s_aligned", StepMs: 15000, RangeMs: 15000, Align15: true}, // what the HTTP controller produces: metrics_15s for "supported" functions
 	{Name: "step60s_aligned", StepMs: 60000, RangeMs: 60000, Align15: true, Thorough: true},
 }
